@@ -383,6 +383,13 @@ class CeiloChunk(AbstractChunk):
 
         # If I am looking at the slices, also keep track of whether they are isolated, or not.
         if which == 'slices':
+            # The isolation status of slices is set by the grouping step. Re-metarizing the slices
+            # once groups exist would silently reset it: be unforgiving, as for the groups below.
+            if self._groups is not None:
+                raise AmpycloudError(
+                    'Grouping already done.'
+                    ' If you metarize your slices now, you will loose their isolation status !'
+                )
             cols += ['isolated']
 
         # If I am looking at the groups, also keep track of how many sub-components they have
@@ -651,6 +658,12 @@ class CeiloChunk(AbstractChunk):
             The "parameters" of this function are all set in self.prms['SLICING_PRMS'].
 
         """
+
+        # If groups already exist, refuse *before* touching anything: re-slicing would silently
+        # reset the isolation status of the slices that was established by the grouping step.
+        if self._groups is not None:
+            raise AmpycloudError('Grouping already done. If you re-compute your slices now, '
+                                 'you will loose their isolation status !')
 
         # Get a scaled **copy** of the data to feed the clustering algorithm
         tmp = self.data_rescaled(dt_mode='shift-and-scale',
